@@ -23,10 +23,28 @@ from vlib import log
 PROP = "C17"
 
 
-def judge_env(dump):
+def source_aliases():
+    """which names the SOURCE TEXT defines as a bare other name (`force gravity`): the reference for 'alias'.
+    (Registry::definitions can be overwritten after the fact - a quantity sharing the unit's name - and would then hide an alias.)"""
+    import loaderkit
+    path = vlib.workfile("c17-srcdump.json")
+    vlib.run_tool([loaderkit.rv_load(), "dump", "bundled", path], timeout=600)
+    with open(path) as f:
+        src = json.load(f).get("source_defs", [])
+    seen = {}
+    for x in src:
+        if x["kind"] == "unit":
+            seen.setdefault(x["s"], []).append(x["def"].get("k") == "unit")
+    return {n: v[0] for n, v in seen.items() if len(v) == 1}
+
+
+def judge_env(dump, src_alias=None):
     units = []
     for u in dump["units"]:
-        e = {"name": u["name"], "d": u["val"]["d"], "alias": bool(u["alias"])}
+        alias = bool(u["alias"])
+        if src_alias is not None and s_of(u["name"]) in src_alias:
+            alias = src_alias[s_of(u["name"])]
+        e = {"name": u["name"], "d": u["val"]["d"], "alias": alias}
         if u.get("cat") is not None:
             e["cat"] = u["cat"]
         units.append(e)
@@ -254,7 +272,7 @@ def run(tier, seed):
     vlib.build_harness()
     rng = random.Random(seed)
     dump = regkit.get_dump("bundled")
-    envp = regkit.write_env("c17-env.json", judge_env(dump))
+    envp = regkit.write_env("c17-env.json", judge_env(dump, source_aliases()))
     selfcheck(run, envp)
 
     dgroups = dump_groups(dump)
@@ -294,7 +312,7 @@ def replay(path, seed):
     case = body["case"]
     vlib.build_harness()
     dump = regkit.get_dump("bundled")
-    envp = regkit.write_env("c17r-env.json", judge_env(dump))
+    envp = regkit.write_env("c17r-env.json", judge_env(dump, source_aliases()))
     g = [{"dims": case.get("dims", ""), "forms": case["forms"], "named": False}]
     ev, res = ask(g, case["kind"], 1, 300000, "c17r")
     verdicts, _ = regkit.judge(ev, "Trace_UnitsFor", envp, shards=1, tag="c17rj", min_per_shard=25)
